@@ -24,6 +24,7 @@ package sliceu
 
 //@ func Pick
 //@   property C06
+//@   pure
 //@   requires forall(0, len(idxList), func(j int) bool { return 0 <= idxList[j] && idxList[j] < len(s) })
 //@   ensures len(result) == len(idxList) && forall(0, len(idxList), func(j int) bool { return result[j] == s[idxList[j]] })
 //@   loop 0:
